@@ -4,6 +4,7 @@ import (
 	"encoding/json"
 	"fmt"
 	"math"
+	"math/big"
 	"sort"
 	"strconv"
 	"strings"
@@ -452,6 +453,12 @@ func c19Expect(c c19Case, f2s f2sFunc) c19Exp {
 			return c19Exp{Kind: "skip", Why: "unpacks 20001..10^7 values"}
 		}
 		if err != nil {
+			// no implementation can return 2^31 or more values: the range has to
+			// be refused ("too many results to unpack") before anything is read,
+			// not ground through until a quota stops it
+			if cnt := new(big.Int).Sub(big.NewInt(j), big.NewInt(i)); cnt.Cmp(big.NewInt(1<<31)) >= 0 {
+				return errExp("2^31 or more results")
+			}
 			return hugeExp("more than 10^7 results")
 		}
 		return c19Exp{Kind: "ok", Soft: soft, T1: t1, Rets: vals}
@@ -1345,7 +1352,7 @@ func TestC19(t *testing.T) {
 	rec.Assume("table.insert/table.remove with a position outside the range the manual allows: the reference implementation's error is required (the manual defines no other behaviour)")
 	rec.Assume("table.unpack of more than 256 values (the limit golua documents; the manual names none): the exact results and an error are both accepted")
 	rec.Assume("the text of a float element in table.concat is taken from golua's `..` operator (§3.4.3 leaves the number format open); integers are decimal")
-	rec.Assume("results that cannot exist (string.rep beyond 64 KiB under a 64 MiB limit, moves/unpacks of more than 10^7 elements under a budget of 150000 cpu units; 20001..10^7 elements: no expectation, not generated on purpose): an error or a resource stop are accepted, a normal return is not")
+	rec.Assume("results that cannot exist (string.rep beyond 64 KiB under a 64 MiB limit, moves/unpacks of more than 10^7 elements under a budget of 150000 cpu units; 20001..10^7 elements: no expectation, not generated on purpose): an error or a resource stop are accepted, a normal return is not; table.unpack of 2^31 or more values must be refused with an error before anything is read (as the reference implementation does), a resource stop is not accepted there")
 	rec.Assume("nil in place of an omitted middle argument, numeric strings as positions and numbers as strings are not generated: the manual does not define them")
 	rec.Assume("table.move(a, f, e, f) onto itself with a range too large to move: the assignment is the identity, so an unchanged table, an error and a resource stop are all accepted")
 	rec.Assume("a comparator that yields: the manual is silent; a normal end (ordered) and an error (permutation) are both accepted")
